@@ -64,6 +64,9 @@ FAULTS = [
     ('a_statement_no_variant_accepts', 'ld8 1, 2'),
     ('a_statement_no_variant_accepts', 'nop 5'),
     ('a_statement_no_variant_accepts', 'ld8 ra'),
+    ('a_statement_no_variant_accepts', 'hlt 5'),
+    ('a_statement_no_variant_accepts', 'hlt ra'),
+    ('a_statement_no_variant_accepts', 'ret 1, 2'),
     ('a_value_its_field_cannot_hold', 'ld8 big'),
     ('a_value_its_field_cannot_hold', 'ld16 big * 256'),
     ('a_value_its_field_cannot_hold', 'ld12 negbig'),
